@@ -22,7 +22,9 @@ RULE = ("(a) all 37 built-in crops x a fixed dense lattice (enumerated completel
         "steps x ET0 {0.1,1,3,5,8,12,20} x early-senescence flag; Tmin/Tmax -30..60 C in 1.5 C steps; the three degree-day methods; "
         "time 0..3 x maturity in 120 steps; CO2 250..2500 ppm in 26 steps through model initialisation and through the season-start "
         "path; (b) Hypothesis floats for the same arguments plus perturbed canopy parameters (CC0, CCx, CGC, CDC). Oracles: range, "
-        "monotonicity (adjacent lattice points / generated pairs), inverse (growth curve o time-to-reach-cover = id), neutral point "
+        "monotonicity (adjacent lattice points / generated pairs), inverse (growth curve o time-to-reach-cover = id), independence of "
+        "the growth curve from CCx0 (called as the model does with CCx0 in {CCx/0.98, /0.9, /0.7, /0.5}, fine time grid around the "
+        "half-cover time), neutral point "
         "(fCO2(369.41)=1), agreement of the two fCO2 code paths. One evaluation per argument tuple. Non-trivial tuple: the function "
         "value is strictly inside its range (not at a clamp); distinct = (crop, function, arguments).")
 ASSUMPTIONS = [
